@@ -27,6 +27,14 @@
 // writes (SetRuntimeVar, SetGlobalRuntimeVar, DeleteRuntimeVar,
 // DeleteGlobalRuntimeVar) runs on roles of the loaded tree before the same
 // observation is taken at every role — see writes.go / genwrites.go.
+//
+// Third form, six elements (E style (SD SV U) tree tmpl sched): a REAL
+// core/environment.Environment with a configuration store (SD, SV), user-supplied
+// variables (U) and the loaded tree as its workflow is driven through a schedule of
+// transitions (real TryTransition, real FSM callbacks) and runtime writes; the same
+// observation at every role after the load and after every item — the environment's
+// own variable writes (run number, run time stamps, configuration-store copies, …);
+// see envrun.go / genenv.go / envfacts.go.
 package c14
 
 import (
@@ -451,6 +459,24 @@ func taskProbes(r workflow.Role, tmpl *sx.Node, keys []string) (*sx.Node, error)
 // observe records everything the harness looks at on ONE role; t is the role's
 // description in the input (kind, …, iterator locals for the stage probes).
 func observe(r workflow.Role, t *sx.Node, tmpl *sx.Node, keys []string) (*sx.Node, error) {
+	return observeR(r, t, tmpl, keys, false)
+}
+
+// observeR: restrict = the whole-map dumps show the keys of the universe only (a real
+// environment's maps also hold what apricot's GetDefaults adds: host name, consul_* …).
+func observeR(r workflow.Role, t *sx.Node, tmpl *sx.Node, keys []string, restrict bool) (*sx.Node, error) {
+	dumpMap := func(m map[string]string) *sx.Node {
+		if !restrict {
+			return dumpMap(m)
+		}
+		f := map[string]string{}
+		for _, k := range keys {
+			if v, ok := m[k]; ok {
+				f[k] = v
+			}
+		}
+		return dumpMap(f)
+	}
 	ro := sx.L()
 	if st, err := r.ConsolidatedVarStack(); err != nil {
 		ro.Add(sx.L(sx.A("err")))
@@ -489,6 +515,9 @@ func runImpl(input string) (string, error) {
 	in, err := sx.Parse(input)
 	if err != nil {
 		return "", err
+	}
+	if isEnvForm(in) {
+		return runEnv(in) // a real Environment driven through its transitions, see envrun.go
 	}
 	if in.IsList && in.Len() == 5 {
 		return runWrites(in) // loaded tree + runtime writes, see writes.go
